@@ -10,14 +10,21 @@
 //! scenario = (L cfg (L req...)); cfg as in c00pipe::build_host plus
 //!   files   (L (L "public/<name>" content)...)   readers (L (L path (N limit))...)   limit (N max_requests)
 //!   server  (N 0|1)                                wait_close (N ms)
+//!   streams (L (L path (N kind) (N announced) (L chunk...))...)   handlers whose reply carries a future:
+//!            kind 0 = `kvarn::extensions::stream_body()` (the file public/<path>), kind 1 = `with_future` (no
+//!            length; the future writes the chunks), kind 2 = `with_future_and_len(.., announced)`, kind 3 = `with_future`
+//!            and a `content-length: announced` header set by the handler itself
+//!   sndbuf  (N bytes) send buffer of the server's end of the connection (0 = the kernel's choice)
+//!   retry   (N 0|1)   run the scenario again (fresh host, up to 3 attempts) when the client ran into a time-out
 //! req      = (L method target (L (L name value)...) body (N early) (N flags))     flags bit 0: unknown Host,
-//!            bit 1: shut down the client's write side after this request's bytes
+//!            bit 1: shut down the client's write side after this request's bytes, bit 2: request line says
+//!            HTTP/1.0, bits 8..23: write the head in pieces of that many bytes (0 = one write),
+//!            bits 24..31: write the last k bytes of the head in a write of their own
 //! result   = (L (B all bytes) (N final: 0 open, 1 closed) (N sent) (N answered) (N confused)
-//!               (L (L (N ok) (B decoded body))...))
+//!               (L (L (N ok) (B decoded body))...) (N attempts) (N timed out: the client's wait ran out))
 use crate::c00pipe;
 use crate::xval::X;
 use kvarn::prelude::*;
-use std::sync::atomic::{AtomicU32, Ordering};
 use std::sync::{Arc, OnceLock};
 use std::time::Duration;
 use tokio::io::{AsyncReadExt, AsyncWriteExt};
@@ -64,6 +71,53 @@ fn customize(kv: &[(String, X)], host: &mut Host, shared: &Arc<c00pipe::Shared>)
             );
         }
     }
+    if let Some(ss) = kv_get(kv, "streams").and_then(X::as_l) {
+        for s in ss {
+            let (path, kind, announced, chunks) = match s.as_l() {
+                Some([X::B(p), X::N(k), X::N(a), X::L(cs)]) => (
+                    p.clone(),
+                    *k,
+                    *a as u64,
+                    cs.iter().filter_map(|c| c.as_b().map(Bytes::copy_from_slice)).collect::<Vec<Bytes>>(),
+                ),
+                _ => continue,
+            };
+            if kind == 0 {
+                host.extensions.add_prepare_single(c00pipe::leak(&path), kvarn::extensions::stream_body());
+                continue;
+            }
+            let chunks = Arc::new(chunks);
+            host.extensions.add_prepare_single(
+                c00pipe::leak(&path),
+                prepare!(_req, _host, _path, _addr, move |chunks: Arc<Vec<Bytes>>, kind: u128, announced: u64| {
+                    let chunks = Arc::clone(chunks);
+                    let fut = response_pipe_fut!(pipe, _host, move |chunks: Arc<Vec<Bytes>>| {
+                        for c in chunks.iter() {
+                            if pipe.send(c.clone()).await.is_err() {
+                                break;
+                            }
+                        }
+                    });
+                    let mut resp = Response::builder()
+                        .header("content-type", "text/plain")
+                        .header("x-tag", "S")
+                        .body(Bytes::new())
+                        .unwrap();
+                    if *kind == 3 {
+                        // the handler frames its stream itself
+                        utils::set_content_length(resp.headers_mut(), *announced);
+                    }
+                    let fat = FatResponse::new(resp, comprash::ServerCachePreference::None)
+                        .with_compress(comprash::CompressPreference::None);
+                    if *kind == 2 {
+                        fat.with_future_and_len(fut, *announced)
+                    } else {
+                        fat.with_future(fut)
+                    }
+                }),
+            );
+        }
+    }
     if let Some(max) = kv_get(kv, "limit").and_then(X::as_n) {
         if max > 0 {
             host.limiter = kvarn::limiting::Manager::new(max as usize, 1, 1.0e9);
@@ -101,20 +155,27 @@ fn parse_req(x: &X) -> Option<Req> {
 }
 
 enum Got {
-    Frame { enc: Option<Vec<u8>>, body: (usize, usize) },
+    /// `to_end`: the response announces no length: its body is everything up to the end of the stream
+    Frame { enc: Option<Vec<u8>>, body: (usize, usize), to_end: bool },
     Closed,
     Confused,
 }
+
+/// How long the client waits for the bytes of a response.  kvarn gives up on a request head after 5 s: a
+/// request the server does not recognise is seen here as "closed without an answer", not as a time-out.
+const WAIT: Duration = Duration::from_secs(8);
 
 struct Client {
     stream: tokio::net::TcpStream,
     all: Vec<u8>,
     pos: usize,
+    /// a wait ran into its time-out, or the server took seconds to close: the machine may just be busy
+    slow: bool,
 }
 impl Client {
     /// false = end of stream (or reset)
     async fn more(&mut self, wait: Duration) -> Result<bool, ()> {
-        let mut tmp = [0u8; 16384];
+        let mut tmp = [0u8; 65536];
         match tokio::time::timeout(wait, self.stream.read(&mut tmp)).await {
             Ok(Ok(0)) => Ok(false),
             Ok(Ok(n)) => {
@@ -127,15 +188,21 @@ impl Client {
     }
     /// The client's own framing, used only to know when to send the next request.
     async fn response(&mut self, is_head: bool) -> Got {
-        let wait = Duration::from_secs(5);
+        let t0 = std::time::Instant::now();
         let head_end = loop {
             if let Some(p) = self.all[self.pos..].windows(4).position(|w| w == b"\r\n\r\n") {
                 break self.pos + p + 4;
             }
-            match self.more(wait).await {
+            match self.more(WAIT).await {
                 Ok(true) => {}
-                Ok(false) => return if self.all.len() == self.pos { Got::Closed } else { Got::Confused },
-                Err(()) => return Got::Confused,
+                Ok(false) => {
+                    self.slow |= t0.elapsed() >= Duration::from_secs(3);
+                    return if self.all.len() == self.pos { Got::Closed } else { Got::Confused };
+                }
+                Err(()) => {
+                    self.slow = true;
+                    return Got::Confused;
+                }
             }
         };
         let head = String::from_utf8_lossy(&self.all[self.pos..head_end]).to_ascii_lowercase();
@@ -145,43 +212,148 @@ impl Client {
             _ => return Got::Confused,
         };
         let field = |name: &str| head.lines().find_map(|l| l.strip_prefix(name).map(|v| v.trim().to_string()));
+        let enc = field("content-encoding:").map(String::into_bytes);
         let bodyless = is_head || (100..200).contains(&status) || status == 204 || status == 304;
         let len = if bodyless {
             0
         } else {
-            match field("content-length:").and_then(|v| v.parse::<usize>().ok()) {
-                Some(n) => n,
-                None => return Got::Confused,
+            match field("content-length:") {
+                Some(v) => match v.parse::<usize>() {
+                    Ok(n) => n,
+                    Err(_) => return Got::Confused,
+                },
+                None => {
+                    // no announced length: the body ends where the stream ends
+                    loop {
+                        match self.more(WAIT).await {
+                            Ok(true) => {}
+                            Ok(false) => break,
+                            Err(()) => {
+                                // still open: nothing tells this client where the response ends
+                                return Got::Confused;
+                            }
+                        }
+                    }
+                    self.pos = self.all.len();
+                    return Got::Frame { enc, body: (head_end, self.all.len()), to_end: true };
+                }
             }
         };
         while self.all.len() < head_end + len {
-            match self.more(wait).await {
+            match self.more(WAIT).await {
                 Ok(true) => {}
-                _ => return Got::Confused,
+                Ok(false) => return Got::Confused,
+                Err(()) => {
+                    self.slow = true;
+                    return Got::Confused;
+                }
             }
         }
         self.pos = head_end + len;
-        Got::Frame { enc: field("content-encoding:").map(String::into_bytes), body: (head_end, head_end + len) }
+        Got::Frame { enc, body: (head_end, head_end + len), to_end: false }
     }
 }
 
-static PORT_COUNTER: AtomicU32 = AtomicU32::new(0);
-fn next_port() -> u16 {
-    let n = PORT_COUNTER.fetch_add(1, Ordering::Relaxed);
-    (10_000 + (std::process::id() % 220) * 100 + 50 + n % 50) as u16
+/// Ports for the `RunConfig::execute` servers.  kvarn sets SO_REUSEPORT, so two servers may share a port and
+/// answer each other's clients: a port is taken from the kernel (`bind(.., 0)`: nobody holds it, and the
+/// kernel never hands out a port that is in use) and claimed among the harness processes of this check by an
+/// exclusively created lock file before the probing listener is dropped.  The other checks use 10000..32000.
+struct PortClaim {
+    port: u16,
+    lock: std::path::PathBuf,
 }
-async fn port_is_free(port: u16) -> bool {
-    matches!(
-        tokio::time::timeout(Duration::from_secs(2), tokio::net::TcpStream::connect(("127.0.0.1", port))).await,
-        Ok(Err(e)) if e.kind() == std::io::ErrorKind::ConnectionRefused
-    )
+impl Drop for PortClaim {
+    fn drop(&mut self) {
+        let _ = std::fs::remove_file(&self.lock);
+    }
+}
+fn claim_port() -> Option<PortClaim> {
+    let dir = std::env::temp_dir().join("kvh-c08-ports");
+    let _ = std::fs::create_dir_all(&dir);
+    // lock files of processes that were killed
+    if let Ok(rd) = std::fs::read_dir(&dir) {
+        for e in rd.flatten() {
+            let old = e.metadata().ok().and_then(|m| m.modified().ok()).and_then(|t| t.elapsed().ok());
+            if old.map_or(false, |d| d > Duration::from_secs(1800)) {
+                let _ = std::fs::remove_file(e.path());
+            }
+        }
+    }
+    for _ in 0..64 {
+        let probe = std::net::TcpListener::bind(("0.0.0.0", 0)).ok()?;
+        let port = probe.local_addr().ok()?.port();
+        let lock = dir.join(port.to_string());
+        if std::fs::OpenOptions::new().write(true).create_new(true).open(&lock).is_ok() {
+            drop(probe);
+            return Some(PortClaim { port, lock });
+        }
+    }
+    None
 }
 
-async fn open_direct(hosts: Arc<HostCollection>) -> std::io::Result<tokio::net::TcpStream> {
-    let listener = tokio::net::TcpListener::bind("127.0.0.1:0").await?;
+/// One listening socket per process and send-buffer size: every case takes one more ephemeral port (its client's), not two.
+/// `sndbuf` > 0: the server's end of the connection gets a send buffer of that size (inherited from the listening
+/// socket, and no longer tuned by the kernel), so that a body of some ten kilobytes does not fit a single `write`.
+fn listener(sndbuf: u32) -> std::io::Result<&'static tokio::net::TcpListener> {
+    static PLAIN: OnceLock<tokio::net::TcpListener> = OnceLock::new();
+    static SMALL: OnceLock<tokio::net::TcpListener> = OnceLock::new();
+    let cell = if sndbuf > 0 { &SMALL } else { &PLAIN };
+    if let Some(l) = cell.get() {
+        return Ok(l);
+    }
+    let mut last = std::io::Error::from(std::io::ErrorKind::Other);
+    for _ in 0..50 {
+        let made = (|| {
+            let socket = tokio::net::TcpSocket::new_v4()?;
+            socket.set_reuseaddr(true)?;
+            if sndbuf > 0 {
+                socket.set_send_buffer_size(sndbuf)?;
+            }
+            socket.bind(std::net::SocketAddr::from(([127, 0, 0, 1], 0)))?;
+            socket.listen(16)
+        })();
+        match made {
+            Ok(l) => return Ok(cell.get_or_init(|| l)),
+            Err(e) => {
+                last = e;
+                std::thread::sleep(Duration::from_millis(100));
+            }
+        }
+    }
+    Err(last)
+}
+
+async fn open_direct(hosts: Arc<HostCollection>, sndbuf: u32) -> std::io::Result<tokio::net::TcpStream> {
+    let listener = listener(sndbuf)?;
     let addr = listener.local_addr()?;
-    let client = tokio::net::TcpStream::connect(addr).await?;
-    let (server_end, peer) = listener.accept().await?;
+    // the machine is shared: when it runs out of ephemeral ports for a moment, wait
+    let mut client = None;
+    let mut last = std::io::Error::from(std::io::ErrorKind::Other);
+    for _ in 0..50 {
+        match tokio::net::TcpStream::connect(addr).await {
+            Ok(c) => {
+                client = Some(c);
+                break;
+            }
+            Err(e) => {
+                last = e;
+                tokio::time::sleep(Duration::from_millis(100)).await;
+            }
+        }
+    }
+    let client = match client {
+        Some(c) => c,
+        None => return Err(last),
+    };
+    let me = client.local_addr()?;
+    let (server_end, peer) = loop {
+        let (s, peer) = tokio::time::timeout(Duration::from_secs(10), listener.accept())
+            .await
+            .map_err(|_| std::io::Error::from(std::io::ErrorKind::TimedOut))??;
+        if peer == me {
+            break (s, peer);
+        }
+    };
     let desc = Arc::new(PortDescriptor::unsecure(8080, hosts));
     tokio::spawn(async move {
         let _ = kvarn::handle_connection(kvarn::Incoming::Tcp(server_end), peer, desc, || true).await;
@@ -189,22 +361,15 @@ async fn open_direct(hosts: Arc<HostCollection>) -> std::io::Result<tokio::net::
     Ok(client)
 }
 
-async fn open_server(hosts: Arc<HostCollection>) -> Option<(tokio::net::TcpStream, Arc<kvarn::shutdown::Manager>)> {
-    let mut port = next_port();
-    let mut tries = 0;
-    while !port_is_free(port).await {
-        port = next_port();
-        tries += 1;
-        if tries > 60 {
-            return None;
-        }
-    }
+async fn open_server(hosts: Arc<HostCollection>) -> Option<(tokio::net::TcpStream, Arc<kvarn::shutdown::Manager>, PortClaim)> {
+    let claim = claim_port()?;
+    let port = claim.port;
     let manager = RunConfig::new().bind(PortDescriptor::unsecure(port, hosts).ipv4_only()).disable_ctl().execute().await;
     let t0 = std::time::Instant::now();
     loop {
         match tokio::time::timeout(Duration::from_secs(3), tokio::net::TcpStream::connect(("127.0.0.1", port))).await {
-            Ok(Ok(s)) => return Some((s, manager)),
-            _ if t0.elapsed() < Duration::from_secs(5) => tokio::time::sleep(Duration::from_millis(10)).await,
+            Ok(Ok(s)) => return Some((s, manager, claim)),
+            _ if t0.elapsed() < Duration::from_secs(10) => tokio::time::sleep(Duration::from_millis(10)).await,
             _ => {
                 manager.shutdown();
                 return None;
@@ -213,18 +378,25 @@ async fn open_server(hosts: Arc<HostCollection>) -> Option<(tokio::net::TcpStrea
     }
 }
 
-async fn run(built: &c00pipe::Built, reqs: &[Req], server: bool, wait_close: u64, late_ms: u64) -> Option<X> {
+struct Ran {
+    out: Vec<X>,
+    slow: bool,
+}
+
+async fn run(built: &c00pipe::Built, reqs: &[Req], server: bool, wait_close: u64, late_ms: u64, sndbuf: u32) -> Option<Ran> {
     let mut manager = None;
+    let mut _claim = None;
     let stream = if server {
-        let (s, m) = open_server(Arc::clone(&built.hosts)).await?;
+        let (s, m, c) = open_server(Arc::clone(&built.hosts)).await?;
         manager = Some(m);
+        _claim = Some(c);
         s
     } else {
-        open_direct(Arc::clone(&built.hosts)).await.ok()?
+        open_direct(Arc::clone(&built.hosts), sndbuf).await.ok()?
     };
     let _ = stream.set_nodelay(true);
     let t0 = std::time::SystemTime::now().duration_since(std::time::UNIX_EPOCH).unwrap().as_secs();
-    let mut c = Client { stream, all: Vec::new(), pos: 0 };
+    let mut c = Client { stream, all: Vec::new(), pos: 0, slow: false };
     let (mut sent, mut answered, mut confused, mut closed) = (0u32, 0u32, false, false);
     let mut frames = Vec::new();
     for r in reqs {
@@ -232,7 +404,7 @@ async fn run(built: &c00pipe::Built, reqs: &[Req], server: bool, wait_close: u64
         head.extend_from_slice(&r.method);
         head.push(b' ');
         head.extend_from_slice(&r.target);
-        head.extend_from_slice(b" HTTP/1.1\r\nhost: ");
+        head.extend_from_slice(if r.flags & 4 == 4 { b" HTTP/1.0\r\nhost: " } else { b" HTTP/1.1\r\nhost: " });
         head.extend_from_slice(if r.flags & 1 == 1 { b"nohost.test" } else { built.host_name.as_bytes() });
         head.extend_from_slice(b"\r\n");
         for (n, v) in &r.headers {
@@ -242,9 +414,41 @@ async fn run(built: &c00pipe::Built, reqs: &[Req], server: bool, wait_close: u64
             head.extend_from_slice(b"\r\n");
         }
         head.extend_from_slice(b"\r\n");
+        let head_len = head.len();
         let early = r.early.min(r.body.len());
         head.extend_from_slice(&r.body[..early]);
-        if c.stream.write_all(&head).await.is_err() {
+        // the segments in which the head (and the early part of the body) leaves the client
+        let piece = ((r.flags >> 8) & 0xffff) as usize;
+        let tail = (((r.flags >> 24) & 0xff) as usize).min(head_len.saturating_sub(1));
+        let mut cuts: Vec<usize> = Vec::new();
+        if piece > 0 {
+            let mut p = piece;
+            while p < head_len {
+                cuts.push(p);
+                p += piece;
+            }
+        }
+        if tail > 0 && !cuts.contains(&(head_len - tail)) {
+            cuts.push(head_len - tail);
+            cuts.sort_unstable();
+        }
+        let mut from = 0;
+        let mut ok = true;
+        for cut in cuts.into_iter().chain(std::iter::once(head.len())) {
+            if cut <= from {
+                continue;
+            }
+            if from > 0 {
+                // let the server read what was written before the next segment follows
+                tokio::time::sleep(Duration::from_millis(if piece > 0 && piece < 8 { 1 } else { 15 })).await;
+            }
+            if c.stream.write_all(&head[from..cut]).await.is_err() {
+                ok = false;
+                break;
+            }
+            from = cut;
+        }
+        if !ok {
             closed = true;
             break;
         }
@@ -259,10 +463,14 @@ async fn run(built: &c00pipe::Built, reqs: &[Req], server: bool, wait_close: u64
             let _ = c.stream.shutdown().await;
         }
         match c.response(r.method == b"HEAD").await {
-            Got::Frame { enc, body } => {
+            Got::Frame { enc, body, to_end } => {
                 answered += 1;
                 let (decoded, ok) = c00pipe::decode_body(enc.as_deref(), &c.all[body.0..body.1]);
                 frames.push(X::L(vec![X::bool(ok), X::b(c00pipe::canon_body(&decoded))]));
+                if to_end {
+                    closed = true;
+                    break;
+                }
             }
             Got::Closed => {
                 closed = true;
@@ -293,14 +501,17 @@ async fn run(built: &c00pipe::Built, reqs: &[Req], server: bool, wait_close: u64
         m.shutdown();
         let _ = tokio::time::timeout(Duration::from_secs(3), m.wait()).await;
     }
-    Some(X::L(vec![
-        X::b(&c.all),
-        X::N(u128::from(closed)),
-        X::n(sent),
-        X::n(answered),
-        X::bool(confused),
-        X::L(frames),
-    ]))
+    Some(Ran {
+        out: vec![
+            X::b(&c.all),
+            X::N(u128::from(closed)),
+            X::n(sent),
+            X::n(answered),
+            X::bool(confused),
+            X::L(frames),
+        ],
+        slow: c.slow,
+    })
 }
 
 fn conn(x: &X, late_ms: u64) -> X {
@@ -321,22 +532,45 @@ fn conn(x: &X, late_ms: u64) -> X {
             .unwrap_or(0)
     };
     let server = flagn("server") == 1;
+    let retry = flagn("retry") == 1;
     let wait_close = flagn("wait_close") as u64;
-    let built = match c00pipe::build_host(&l[0], Some(&customize)) {
-        Some(b) => b,
-        None => return X::bad(),
-    };
+    let sndbuf = flagn("sndbuf") as u32;
     let mut res = None;
+    let mut attempts = 0u32;
     for _ in 0..3 {
-        res = rt().block_on(run(&built, &reqs, server, wait_close, late_ms));
-        if res.is_some() || !server {
-            break;
+        // a fresh host (caches, counters, limiter) for every attempt
+        let built = match c00pipe::build_host(&l[0], Some(&customize)) {
+            Some(b) => b,
+            None => return X::bad(),
+        };
+        attempts += 1;
+        let r = rt().block_on(run(&built, &reqs, server, wait_close, late_ms, sndbuf));
+        if let Some(d) = &built.dir {
+            let _ = std::fs::remove_dir_all(d);
+        }
+        match r {
+            // the server did not come up
+            None if server => continue,
+            None => break,
+            Some(r) => {
+                // a time-out of the client may be the machine's doing: only what happens again and again counts
+                let again = retry && r.slow;
+                res = Some(r);
+                if !again {
+                    break;
+                }
+            }
         }
     }
-    if let Some(d) = &built.dir {
-        let _ = std::fs::remove_dir_all(d);
+    match res {
+        Some(r) => {
+            let mut out = r.out;
+            out.push(X::n(attempts));
+            out.push(X::bool(r.slow));
+            X::L(out)
+        }
+        None => X::L(vec![X::N(95)]),
     }
-    res.unwrap_or_else(|| X::L(vec![X::N(95)]))
 }
 
 /// (L version status (L (L name value)...) body) -> bytes written by `write::response`
